@@ -60,10 +60,23 @@ def gen_scenario(rng, max_items=3, max_len=6, free_threads=3):
                      'usb': [rng.choice(USB) for _ in range(4)],
                      'nest': [[rng.choice(KINDS) for _ in range(rng.choice([0, 0, 1, 2]))] for _ in range(4)],
                      'nest_usb': [[rng.choice(KINDS) for _ in range(rng.choice([0, 0, 0, 1]))] for _ in range(4)]}
+    if rng.random() < 0.12:
+        # cross-item re-entrancy: from inside subscribe() / unsubscribe() of one item the adapter reports on another
+        # (or on an item nobody asked for)
+        for it in items:
+            for key in ('nest', 'nest_usb'):
+                for lst in behav[it][key]:
+                    for j, k in enumerate(lst):
+                        if rng.random() < 0.7:
+                            lst[j] = [k, rng.choice([x for x in items + ['z'] if x != it])]
     free = []
     for _ in range(rng.randint(0, free_threads)):
         free.append([(rng.choice(KINDS), rng.choice(items + ['z'])) for _ in range(rng.randint(1, 4))])
     return Scenario(rng.choice([1, 1, 2, 2, 3, 8]), chunks, behav, free)
+
+
+def has_cross_nest(sc):
+    return any(isinstance(k, (list, tuple)) for b in sc.behav.values() for key in ('nest', 'nest_usb') for lst in b.get(key, []) for k in lst)
 
 
 def small_scenarios(tier):
@@ -181,7 +194,8 @@ def _work(job):
                 out.append(d)
                 continue
             r = datarun.run_scenario(sc, ch, eager=('writer',))
-            out.append(_digest(r, pid, src))
+            # (cross-item re-entrancy has no label in the per-item model: those runs are judged by the oracles only)
+            out.append(_digest(r, pid, src, model=not has_cross_nest(sc)))
     elif kind == 'long':
         # long sessions: one item with a long alternating history; many items; (nothing may depend on how much a
         # connection has already done)
@@ -258,7 +272,7 @@ def explore(ctx, res, pid):
             res.count('dfs-scenario')
         for d in out:
             res.evaluations += 1
-            res.count(kind if not d['prep'].get('fine') else 'line-granular (oracle only)')
+            res.count(kind if not d['prep'].get('fine') else 'oracle only (line-granular / cross-item re-entrancy)')
             steps += d['steps']
             if not d['prep'].get('fine'):
                 preps.append(d['prep'])
